@@ -172,7 +172,7 @@ func historyFactsOf(c historyCase) historyFacts {
 
 func TestC13_Histories(t *testing.T) {
 	mix := opMix{sets: true, badSets: true, setNullContainer: true, nullRoot: true}
-	runRapid(t, "C13_Histories", nCases(100_000, 2_000_000), func(t *rapid.T) {
+	runRapid(t, "C13_Histories", nCases(100_000, 1_000_000), func(t *rapid.T) {
 		maxOps := 12
 		if thorough() {
 			maxOps = 40
@@ -405,7 +405,7 @@ func valueTextMatches(out []byte, n *rj.Node, what string) error {
 
 func TestC14_Histories(t *testing.T) {
 	mix := opMix{sets: true, delObj: true, delArr: true, setNullContainer: true, nullRoot: true}
-	runRapid(t, "C14_Histories", nCases(100_000, 1_000_000), func(t *rapid.T) {
+	runRapid(t, "C14_Histories", nCases(100_000, 400_000), func(t *rapid.T) {
 		maxOps := 10
 		if thorough() {
 			maxOps = 30
